@@ -18,6 +18,8 @@ TRUSTED = ["level-triggered epoll keeps reporting a readable eventfd", "Epoll::w
 ASSUMPTIONS = []
 NOT_DECIDED = "that the kernel reports the eventfd in every batch; an earlier event of the same batch failing first (faults, see C09)"
 
+POSITIVE_CONTROLS = [("R18.3", "no_read")]
+
 
 def run(ctx):
     ctx.rule("R18.1", "the epoll_wait batch holds MAX_CONNECTIONS + 2 events")
